@@ -2,7 +2,7 @@
    Only statements here; models in Model/Fun2Core.v, semantics in Sem/FunSem.v and Sem/CoreSem.v,
    proofs in Proof/Fun2CoreProof.v. *)
 From Coq Require Import List ZArith String Bool.
-From SCC Require Import Lang.FunSyn Lang.CoreSyn Sem.AxSem Sem.CoreSem Sem.FunSem Model.Fun2Core Proof.Fun2CoreProof.
+From SCC Require Import Lang.FunSyn Lang.CoreSyn Sem.AxSem Sem.CoreSem Sem.FunSem Model.Fun2Core Proof.Fun2CoreProof Proof.Fun2CoreSim.
 Import ListNotations.
 
 (* ---------- the property at full strength (statements) ----------
@@ -72,3 +72,36 @@ Theorem C02_share_label_fresh : forall cur cont st k st',
     st_lifted st' = mkcd (new_id name) ctx body :: st_lifted st.
 Proof. exact share_label_fresh. Qed.
 Print Assumptions C02_share_label_fresh.
+
+(* Definition names of the translated program are pairwise distinct whenever the source's are: user
+   definitions keep their names, every lifted definition is named by its generated label, and
+   generated labels never coincide with a user definition name or with another generated label, of
+   the same or of any other definition (used_labels is threaded through the whole program). *)
+Theorem C02_compile_prog_def_names_distinct : forall p c,
+  compile_prog p = Ok c ->
+  NoDup (map fdname (fcpdefs p)) ->
+  NoDup (map cdname (cpdefs c)).
+Proof. exact compile_prog_def_names_distinct. Qed.
+Print Assumptions C02_compile_prog_def_names_distinct.
+
+(* ---------- semantic preservation, PARTIAL ----------
+   Proved for programs whose `main` lies in the first-order integer fragment [islf]: literals, i64
+   variables, operators, parentheses, non-codata `let` of an expression, print_i64/println_i64, exit,
+   one- and two-operand conditionals (other definitions of the program are arbitrary; the fragment
+   has no calls).  For these programs EVERY source run that does not run out of fuel - normal exit,
+   undefined arithmetic, even an unbound variable - is reproduced exactly (output and outcome) by
+   the Core machine on the model's translation; shadowing is allowed (no capture is possible here:
+   bound terms are expressions).
+   MISSING for fun2core_correct_guarded_statement: calls, constructors/case, new/destructors and
+   by-name bindings, label/goto, `let` whose bound term is not an expression, and shared
+   continuations (a conditional or case in non-tail position). *)
+Theorem C02_fun2core_correct_partial :
+  forall (p : fcprog) (c : cprog) (d : fdef) (args : list Z) (n : nat) (o : obs),
+    compile_prog p = Ok c ->
+    NoDup (map fdname (fcpdefs p)) ->
+    ffind_def p "main" = Some d ->
+    islf (fdbody d) = true ->
+    run_fun n p args = o -> snd o <> OOutOfFuel ->
+    exists m, run_core m c args = o.
+Proof. exact fun2core_correct_partial_lemma. Qed.
+Print Assumptions C02_fun2core_correct_partial.
